@@ -310,8 +310,15 @@ class ExpandP(Profile):
         for r in refs:
             if r in post.subtree(root):
                 return Violation("C16", "E1", "expand:references-left", "references node h%d is still in the tree" % r)
-        # E3: validity is preserved
-        if isinstance(val, dict) and val.get("valid_before") and not val.get("valid_after"):
+        # E3: validity is preserved.  "A tree that validated before" says nothing about what sits
+        # below a metadata element, which validation does not look at; a referenced element kept
+        # there may be invalid while the tree validates, and copying it out carries that along.
+        # The clause is judged when every referenced element was itself covered by the validation.
+        opaque = any(any(pre.name(a) == "metadata" for a in pre.ancestors(ids[pre.cells[r][FI][F_CONTENT]][0]))
+                     for r in refs)
+        if opaque:
+            c.state["e3_skipped_target_in_metadata"] = c.state.get("e3_skipped_target_in_metadata", 0) + 1
+        if not opaque and isinstance(val, dict) and val.get("valid_before") and not val.get("valid_after"):
             return Violation("C16", "E3", "expand:invalidates-tree",
                              "the tree validated before expansion and does not validate after: %s" % short(val.get("after_error")))
         c.state["pairs"].extend(newpairs)
@@ -392,6 +399,8 @@ class ExpandP(Profile):
                 bump(P, "expand_ok")
                 if nrefs and any(not c.pre.cells[h][RG] for h in c.pre.subtree(c.R["n"])):
                     bump(P, "expand_while_json_twin_alive")
+                if c.state.pop("e3_skipped_target_in_metadata", 0):
+                    bump(P, "expand_target_below_metadata_validity_not_judged")
                 if nrefs == 0:
                     bump(P, "expand_no_refs")
                 if nrefs >= 2:
